@@ -979,3 +979,186 @@ theorem runM_bounded (m : M) (ops : List MOp) (h : m.cache.items.length ≤ m.ca
     rwa [stepM_cap] at this
 
 end U3.Mgr
+
+/-! ## completeness of the enumerated lock orders -/
+namespace U3.Conc
+open U3.Lru (Val)
+variable {S O R : Type}
+
+theorem mem_allOrders {k n : Nat} {τ : List Nat} :
+    τ ∈ allOrders k n ↔ τ.length = n ∧ ∀ i ∈ τ, i < k := by
+  induction n generalizing τ with
+  | zero =>
+    simp [allOrders]
+    rintro rfl; simp
+  | succ n ih =>
+    simp only [allOrders, List.mem_flatMap, List.mem_map, List.mem_range]
+    constructor
+    · rintro ⟨τ', hτ', i, hi, rfl⟩
+      obtain ⟨h1, h2⟩ := ih.mp hτ'
+      refine ⟨by simp [h1], ?_⟩
+      intro j hj
+      simp at hj
+      rcases hj with rfl | hj
+      · exact hi
+      · exact h2 j hj
+    · rintro ⟨h1, h2⟩
+      cases τ with
+      | nil => simp at h1
+      | cons i τ' =>
+        refine ⟨τ', ih.mpr ⟨by simpa using h1, fun j hj => h2 j (List.mem_cons_of_mem _ hj)⟩, i,
+          h2 i (List.mem_cons_self ..), rfl⟩
+
+theorem sum_set_length {α : Type} {l : List (List α)} {i : Nat} {a : α} {rest : List α}
+    (h : l[i]? = some (a :: rest)) :
+    ((l.set i rest).map List.length).sum + 1 = (l.map List.length).sum := by
+  induction l generalizing i with
+  | nil => simp at h
+  | cons x xs ih =>
+    cases i with
+    | zero => simp at h; subst h; simp; omega
+    | succ i => simp at h; have := ih h; simp at this ⊢; omega
+
+theorem histOf_length (progs : List (List O)) (τ : List Nat) :
+    (histOf progs τ).length + ((restOf progs τ).map List.length).sum = (progs.map List.length).sum := by
+  induction τ generalizing progs with
+  | nil => simp [histOf, restOf]
+  | cons i τ ih =>
+    simp only [histOf, restOf]
+    split
+    · rename_i op rest h
+      have h1 := ih (progs.set i rest)
+      have h2 := sum_set_length h
+      simp at h1 h2 ⊢; omega
+    · exact ih progs
+
+theorem histOf_lt (progs : List (List O)) (τ : List Nat) :
+    ∀ e ∈ histOf progs τ, e.1 < progs.length := by
+  induction τ generalizing progs with
+  | nil => simp [histOf]
+  | cons i τ ih =>
+    simp only [histOf]
+    split
+    · rename_i op rest h
+      intro e he
+      simp at he
+      rcases he with rfl | he
+      · exact (List.getElem?_eq_some_iff.mp h).1
+      · have := ih (progs.set i rest) e he
+        simpa using this
+    · exact ih progs
+
+theorem sum_zero_of_all_empty {α : Type} {l : List (List α)} (h : l.all List.isEmpty = true) :
+    (l.map List.length).sum = 0 := by
+  induction l with
+  | nil => rfl
+  | cons x xs ih =>
+    simp at h ⊢
+    exact ⟨by simp [h.1], ih (by simpa using h.2)⟩
+
+/-- when every thread has finished, the lock order of the run is one of the enumerated orders -/
+theorem lockOrder_mem (stepf : S → O → S × R × List Val) (s : S) (progs : List (List O)) (σ : List Nat)
+    (hd : (exec stepf (Cfg.init s progs) σ).done = true) :
+    (exec stepf (Cfg.init s progs) σ).hist.map (·.1) ∈ lockOrders progs := by
+  have ho := ordInv_exec stepf s progs σ
+  have hrest : (restOf progs ((exec stepf (Cfg.init s progs) σ).hist.map (·.1))).all List.isEmpty = true := by
+    rw [← ho.todo]; exact todo_done hd
+  simp only [lockOrders, List.mem_filter]
+  refine ⟨mem_allOrders.mpr ⟨?_, ?_⟩, hrest⟩
+  · have h1 := histOf_length progs ((exec stepf (Cfg.init s progs) σ).hist.map (·.1))
+    rw [← ho.hist, sum_zero_of_all_empty hrest] at h1
+    simpa using h1
+  · intro i hi
+    simp only [List.mem_map] at hi
+    obtain ⟨e, he, rfl⟩ := hi
+    rw [ho.hist] at he
+    exact histOf_lt progs _ e he
+
+end U3.Conc
+
+/-! ## manager: pools are allocated once, only dropped pools are closed -/
+namespace U3.Mgr
+open U3.Lru
+
+/-- pool ids are allocated once: cached and dropped pools are pairwise distinct and below `next`;
+only dropped pools are ever closed -/
+structure MInv (m : M) : Prop where
+  nodup : (cached m ++ m.dropped).Nodup
+  lt : ∀ p ∈ cached m ++ m.dropped, p < m.next
+  closed : ∀ p ∈ m.closed, p ∈ m.dropped
+
+theorem MInv.init (cap : Nat) : MInv (M.new cap) :=
+  ⟨by simp [cached, M.new, Lru.new], by simp [cached, M.new, Lru.new], by simp [M.new]⟩
+
+theorem MInv.step {m : M} (h : MInv m) (op : MOp) : MInv (stepM m op).1 := by
+  obtain ⟨h1, h2, h3⟩ := h
+  cases op with
+  | goc k =>
+    rcases stepM_goc m k with ⟨p, rest, hp, hs⟩ | ⟨hp, hs⟩
+    · rw [hs]
+      have hperm : (cached m).Perm (List.map (·.2) (rest ++ [(k, p)])) := by
+        have := (pop_perm hp).map (·.2)
+        simp [cached] at this ⊢
+        exact this.trans (List.perm_append_singleton _ _).symm
+      refine ⟨?_, ?_, h3⟩
+      · exact (List.Perm.append_right _ hperm).nodup_iff.mp h1
+      · intro q hq
+        exact h2 q ((List.Perm.append_right _ hperm).mem_iff.mpr hq)
+    · rw [hs]
+      have hc := (step_rel m.cache (.set k m.next)).conserve
+      simp only [inserted] at hc
+      -- (cached ++ [next]) ++ dropped  ~  cached' ++ (dropped ++ ds)
+      have hperm : ((cached m ++ [m.next]) ++ m.dropped).Perm
+          (List.map (·.2) (Lru.step m.cache (.set k m.next)).1.items ++
+            (m.dropped ++ (Lru.step m.cache (.set k m.next)).2.2)) := by
+        refine (List.Perm.append_right _ hc).trans ?_
+        rw [List.append_assoc]
+        exact List.Perm.append_left _ List.perm_append_comm
+      have hnew : m.next ∉ cached m ++ m.dropped := fun hm => Nat.lt_irrefl _ (h2 _ hm)
+      have hnd : ((cached m ++ [m.next]) ++ m.dropped).Nodup := by
+        have : ((cached m ++ [m.next]) ++ m.dropped).Perm (m.next :: (cached m ++ m.dropped)) := by
+          rw [List.append_assoc]
+          exact List.perm_middle
+        exact this.nodup_iff.mpr (List.nodup_cons.mpr ⟨hnew, h1⟩)
+      refine ⟨hperm.nodup_iff.mp hnd, ?_, ?_⟩
+      · intro q hq
+        have := hperm.mem_iff.mpr hq
+        simp only [List.mem_append, List.mem_singleton] at this
+        rcases this with (hq | hq) | hq
+        · exact Nat.lt_succ_of_lt (h2 q (List.mem_append.mpr (.inl hq)))
+        · subst hq; exact Nat.lt_succ_self _
+        · exact Nat.lt_succ_of_lt (h2 q (List.mem_append.mpr (.inr hq)))
+      · intro q hq
+        simp; exact .inl (h3 q hq)
+  | clear =>
+    refine ⟨?_, ?_, ?_⟩
+    · simp only [stepM, Lru.step, cached, List.map_nil, List.nil_append]
+      exact (List.perm_append_comm).nodup_iff.mp h1
+    · intro q hq
+      simp only [stepM, Lru.step, cached, List.map_nil, List.nil_append] at hq
+      exact h2 q (List.perm_append_comm.mem_iff.mp hq)
+    · intro q hq
+      simp [stepM, Lru.step]; exact .inl (h3 q hq)
+  | release p => exact ⟨h1, h2, h3⟩
+  | gc =>
+    refine ⟨h1, h2, ?_⟩
+    intro q hq
+    simp [stepM] at hq
+    rcases hq with hq | hq
+    · exact h3 q hq
+    · exact hq.1
+  | len => exact ⟨h1, h2, h3⟩
+
+theorem runM_inv (m : M) (ops : List MOp) (h : MInv m) : MInv (runM m ops) := by
+  induction ops generalizing m with
+  | nil => exact h
+  | cons op ops ih => exact ih _ (h.step op)
+
+theorem MInv.cached_not_closed {m : M} (h : MInv m) {p : PoolId} (hp : p ∈ cached m) : p ∉ m.closed := by
+  intro hc
+  have hd := h.closed p hc
+  have := h.nodup
+  rw [List.nodup_append] at this
+  exact this.2.2 p hp p hd rfl
+
+end U3.Mgr
